@@ -33,7 +33,8 @@ def _cases(draw, max_size=9):
     nb = draw(st.sampled_from([None, 0, 1, 2, 3, 4, 7, 10, 25]))
     # narrow float dtypes for exactly representable score values
     f32 = draw(st.sampled_from([None, None, "float32", "float16", "longdouble"])) if s["mode"] in ("grid", "dyadic") else None
-    return dict(s=s, fnr=fnr, fpr=fpr, thr=thr, nb=nb, dtype=f32)
+    return dict(s=s, fnr=fnr, fpr=fpr, thr=thr, nb=nb, dtype=f32,
+                nb_kind=draw(st.sampled_from(["py", "py", "int64", "int32", "uint16"])))
 
 
 def _mk(s, sc, ec, dtype=None):
@@ -53,6 +54,8 @@ def check(case):
     fpr = None if case["fpr"] is None else np.asarray(case["fpr"], dtype=float)
     thr = None if case["thr"] is None else np.asarray(case["thr"], dtype=float)
     nb = case["nb"]
+    if nb is not None and case.get("nb_kind", "py") != "py":
+        nb = np.dtype(case["nb_kind"]).type(nb)  # a count computed with NumPy (np.clip, np.minimum, a table cell)
     max_distinct = 0
     for sc, ec in CONFIGS:
         o = _mk(s, sc, ec, case.get("dtype"))
